@@ -116,16 +116,19 @@ class FileManager:
         # data writes concurrently.
         # TODO: Create FileManager instances for each DataManager instance.
         FileManager.is_busy = True
-        ext = os.path.splitext(filename)[1]
-
-        # save to temp file and move afterwards. prevents broken files
-        temp_file = os.path.dirname(filename) + os.sep + "_" + os.path.basename(filename)
-
         try:
-            FileManager.file_interfaces[ext].save(temp_file, data)
-        except KeyError:
-            raise AssertionError("No config file processor available for file type {}".format(ext))
+            ext = os.path.splitext(filename)[1]
 
-        # move temp file
-        os.replace(temp_file, filename)
-        FileManager.is_busy = False
+            # save to temp file and move afterwards. prevents broken files
+            temp_file = os.path.dirname(filename) + os.sep + "_" + os.path.basename(filename)
+
+            try:
+                FileManager.file_interfaces[ext].save(temp_file, data)
+            except KeyError:
+                raise AssertionError("No config file processor available for file type {}".format(ext))
+
+            # move temp file
+            os.replace(temp_file, filename)
+        finally:
+            # always release the flag. otherwise one failed write blocks all writers forever
+            FileManager.is_busy = False
